@@ -91,6 +91,8 @@ pub enum MgKind {
   None,
   V2,
   V1,
+  /// both forms in one manifest: the newer one is the one to use (the older cannot express `@ts-types`)
+  Both,
 }
 
 #[derive(Clone, Copy, Debug, PartialEq, Eq)]
@@ -312,6 +314,7 @@ impl RegWorld {
   pub fn ver_meta_json(&self, p: &RegPkg, v: &RegVer) -> Vec<u8> {
     let mut manifest = serde_json::Map::new();
     let mut mg = serde_json::Map::new();
+    let mut mg_old = serde_json::Map::new();
     for f in &v.files {
       let bytes = v.file_bytes(f);
       match f.manifest {
@@ -328,6 +331,9 @@ impl RegWorld {
       }
       if v.mg != MgKind::None {
         if let Some(info) = analyze(&file_url(&p.name, &v.version, &f.path), &bytes) {
+          if v.mg == MgKind::Both {
+            mg_old.insert(f.path.clone(), to_module_graph_1_with(&info, f.items.iter().any(|i| matches!(i.form, Form::DenoTypesBare(_)))));
+          }
           mg.insert(f.path.clone(), if v.mg == MgKind::V1 { to_module_graph_1_with(&info, f.items.iter().any(|i| matches!(i.form, Form::DenoTypesBare(_)))) } else { info });
         }
       }
@@ -342,6 +348,10 @@ impl RegWorld {
       }
       MgKind::V1 => {
         o.insert("moduleGraph1".into(), serde_json::Value::Object(mg));
+      }
+      MgKind::Both => {
+        o.insert("moduleGraph1".into(), serde_json::Value::Object(mg_old));
+        o.insert("moduleGraph2".into(), serde_json::Value::Object(mg));
       }
     }
     if let Some(c) = &v.lockfile_checksum {
